@@ -7,7 +7,7 @@ from . import common as C
 LEVEL = "exploration"
 RULE = ("constraint family (half-space, ball, annulus, thin band, removed orthant, measure-zero hyperplane; boolean and float "
         "returns) x geometry (incl. log transform) x noise mode x start kind (feasible / infeasible / feasible but infeasible "
-        "after mesh snapping); the monitor re-evaluates the user's own constraint on the very array passed to the target, on "
+        "after mesh snapping; starts a fraction of a search-mesh step from a hard bound under coarse search meshes); the monitor re-evaluates the user's own constraint on the very array passed to the target, on "
         "every filter output and on the result; infeasible given starts must raise ValueError with 0 target calls. One case in nine is followed, in the same process, by a SEQUEL run that is handed the same constraint callable OBJECT (same x-space region) with another plausible box, i.e. another internal coordinate system (multi-start / re-scaling loops do this); the sequel is judged by the same oracle. Plus every documented option moved off its default (boolean flips, halved / doubled numbers) on noisy problems under measure-zero / thin-band constraints. Non-trivial: "
         "the constraint rejected candidates at >= 2 different call sites (init/search/poll/ES) or a start was rejected; distinct "
         "= distinct (D, geometry, start, landscape, location, mode, constraint, start kind) signatures")
@@ -59,6 +59,24 @@ def cases(tier, seed):
             P_ = gen.Problem(spec)
             x0t = gen.tmap(P_.x0, P_.plb, P_.pub, P_.logm)
             spec["target"]["c"] = (x0t + a * (spec["cons"]["b"] - float(a @ x0t) + 0.3)).tolist()  # optimum beyond the constraint
+            start = "feasible"
+        if i % 11 == 4:
+            # start a fraction of a search-mesh step from a hard bound (gridisation pushes it outside, the constructor shifts it
+            # one mesh step back in) x COARSE search mesh x a constraint boundary near the start: the point that ends up being
+            # evaluated first must be the one whose feasibility was checked
+            rng4 = gen.rng_for(seed, "C02", 300000 + i)
+            spec = gen.make_spec(rng4, D=int(rng4.choice([1, 2, 3])), geom=str(rng4.choice(["lin", "offcentre", "wide", "nicelin"])), x0mode=str(rng4.choice(["efflb", "effub"])),
+                                 land=str(rng4.choice(["quad", "sphere", "l1"])), where=str(rng4.choice(["in", "onb"])), mode=str(rng4.choice(["det", "det", "he"])),
+                                 cons=str(rng4.choice(["ball", "halfspace", "corner", "annulus"])), options={"search_grid_number": int(rng4.choice([2, 3, 5, 7, 10]))},
+                                 max_fun_evals=40)
+            if rng4.random() < 0.6:
+                # a half-space whose boundary lies a fraction of a mesh step INWARD of the start: the given start is
+                # feasible, a start shifted one coarse mesh step into the box is not (and must then be rejected)
+                P4 = gen.Problem(spec)
+                x0t = gen.tmap(P4.x0, P4.plb, P4.pub, P4.logm)
+                sgn4 = 1.0 if spec["x0mode"] == "efflb" else -1.0
+                a4 = sgn4 * np.ones(spec["D"]) / np.sqrt(spec["D"])
+                spec["cons"] = {"kind": "halfspace", "ret": str(rng4.choice(["bool", "float"])), "a": a4.tolist(), "b": float(a4 @ x0t + rng4.uniform(0.01, 0.08))}
             start = "feasible"
         case = {"spec": spec, "start": start}
         if i % 9 == 5:
